@@ -48,6 +48,11 @@ class G:
     def mem(self):
         form = self.int(0, 4)
         a, b = self.reg(REG64), self.reg(REG64)
+        if self.chance(0.12):
+            # index registers with long names: gather/scatter vector indexes, 32-bit addressing with extended registers
+            b = "%" + self.pick(["ymm1", "xmm12", "zmm31", "r10d", "r15d", "ymm0"])
+            if self.chance(0.4):
+                a = "%" + self.pick(["r10d", "r13d", "eax"])
         c = str(self.pick([1, 2, 4, 8]))
         if form == 0:
             return "%s(%s,%s,%s)" % (self.disp(), a, b, c)
@@ -60,7 +65,8 @@ class G:
         return "(%s)" % a
 
     def target(self):
-        t = "%x" % self.pick([0x10, 0x33, 0x401000, 0x401005, self.int(0, 0xfffff)])
+        # targets whose hexadecimal spelling has letters only read like words (dead, face, add, bbd)
+        t = "%x" % self.pick([0x10, 0x33, 0x401000, 0x401005, self.int(0, 0xfffff), 0xdead, 0xface, 0xadd, 0xbbd, 0xefcd, 0xab])
         if self.chance(0.8):
             t += " <%s%s>" % (self.pick(["main", "f", "AesExpandKey", "_start", ".L1"]), self.pick(["", "+0x10", "+0x33"]))
         return t
